@@ -280,3 +280,53 @@ func (s *shadow) notFoundRegion(q qSpec, scopeSeries []int) bool {
 	}
 	return false
 }
+
+// singleFieldFileRegion reports whether a query on several fields reads a file that holds exactly
+// one field (finding single-field-file-read-into-first-query-field).
+func (s *shadow) singleFieldFileRegion(q qSpec) bool {
+	flds := map[int]bool{}
+	for _, it := range q.items {
+		flds[it.fld] = true
+	}
+	if len(flds) < 2 {
+		return false
+	}
+	for f, fs := range s.fams {
+		tLo, tHi, ok := s.familyTarget(q, f)
+		if !ok {
+			continue
+		}
+		for _, fl := range fs.files() {
+			if !overlap(fl.lo, fl.hi, tLo, tHi) || len(fl.fields) != 1 {
+				continue
+			}
+			for k := range fl.fields {
+				if flds[k] {
+					return true
+				}
+			}
+		}
+	}
+	return false
+}
+
+// maxFilesInRange is the largest number of files of one family that overlap the query range.
+func (s *shadow) maxFilesInRange(q qSpec) int {
+	m := 0
+	for f, fs := range s.fams {
+		tLo, tHi, ok := s.familyTarget(q, f)
+		if !ok {
+			continue
+		}
+		n := 0
+		for _, fl := range fs.files() {
+			if overlap(fl.lo, fl.hi, tLo, tHi) {
+				n++
+			}
+		}
+		if n > m {
+			m = n
+		}
+	}
+	return m
+}
